@@ -279,6 +279,9 @@ def chk_hex(case, acc, seed):
     except Exception as e:
         acc.violation(f'hex:raises:{type(e).__name__}', case, repr(e))
         return
+    if not all(isinstance(x, np.ndarray) for x in (m, ma, flat)):
+        acc.violation('hex:not-an-array', case, f'hex_segments returns {type(m).__name__} / {type(flat).__name__}, not arrays')
+        return
     ndrop = len(set(d for d in drop if 0 <= d < nseg))
     if m.shape[0] != nseg - ndrop or np.asarray(ma).shape != m.shape:
         acc.violation('hex:count', case, f'{m.shape[0]} segments (antialiased call: {np.asarray(ma).shape[0] if np.ndim(ma) == 3 else np.shape(ma)}), expected {nseg} - {ndrop}')
